@@ -40,6 +40,7 @@ type c13World struct {
 	bps    int64
 	window int64
 	ent    int64
+	chains []string // the two relay chains of this world
 }
 
 func (w *c13World) e() int64 { w.ent++; return 5000 + w.ent }
@@ -47,6 +48,13 @@ func (w *c13World) e() int64 { w.ent++; return 5000 + w.ent }
 func newC13World(rt *rapid.T) *c13World {
 	w := &c13World{spec: chain.DefaultSpec(), client: chain.Key("c13-client")}
 	s := &w.spec
+	// network identifiers are 1 or 2 bytes; a third of the worlds use a one-byte identifier and a two-byte identifier that
+	// starts with the same byte (the one-byte id is then a key prefix of the other in the validators-by-chain index)
+	w.chains = []string{"0001", "0021"}
+	if rapid.SampledFrom([]int{0, 0, 1}).Draw(rt, "chainIds") == 1 {
+		w.chains = []string{"01", "01ab"}
+	}
+	s.PocketParams.SupportedBlockchains = append([]string{}, w.chains...)
 	w.bps = int64(rapid.IntRange(2, 4).Draw(rt, "bps"))
 	w.window = 2
 	s.NodeParams.SessionBlockFrequency = w.bps
@@ -58,13 +66,13 @@ func newC13World(rt *rapid.T) *c13World {
 	for i := 0; i < nn; i++ {
 		k := chain.Key(fmt.Sprintf("c13-node%d", i))
 		w.nodes = append(w.nodes, k)
-		s.Nodes = append(s.Nodes, chain.NodeSpec{Key: k, Stake: chain.StakeUnit * int64(1+i%2), Chains: []string{"0001", "0021"}})
+		s.Nodes = append(s.Nodes, chain.NodeSpec{Key: k, Stake: chain.StakeUnit * int64(1+i%2), Chains: append([]string{}, w.chains...)})
 		s.Accounts = append(s.Accounts, chain.AccountSpec{Key: k, Balance: 40_000_000_000})
 	}
 	for i := 0; i < 2; i++ {
 		k := chain.Key(fmt.Sprintf("c13-app%d", i))
 		w.apps = append(w.apps, k)
-		s.Apps = append(s.Apps, chain.AppSpec{Key: k, Stake: 50_000_000, Chains: []string{"0001", "0021"}})
+		s.Apps = append(s.Apps, chain.AppSpec{Key: k, Stake: 50_000_000, Chains: append([]string{}, w.chains...)})
 		s.Accounts = append(s.Accounts, chain.AccountSpec{Key: k, Balance: 2_000_000_000})
 	}
 	for i := 0; i < 2; i++ {
@@ -135,6 +143,10 @@ func TestC11Claims(t *testing.T) {
 func c13Body(sigBlock, sigFinal string, kinds []string) func(rt *rapid.T, c *harness.Case) {
 	return func(rt *rapid.T, c *harness.Case) {
 		w := newC13World(rt)
+		oneByte := len(w.chains[0]) == 2
+		if oneByte {
+			c.Label("one-byte-chain-id-prefix-of-another")
+		}
 		nblocks := rapid.IntRange(14, 30).Draw(rt, "nBlocks")
 		start := int64(w.spec.Warmup) // histories start at height Warmup+1 (no setup block: no ViaTx nodes, no multisig)
 		// ---- generate the script (inputs only) ----
@@ -166,7 +178,7 @@ func c13Body(sigBlock, sigFinal string, kinds []string) func(rt *rapid.T, c *har
 			for i := 0; i < ntx; i++ {
 				kind := rapid.SampledFrom([]string{"claim", "claim", "proof", "proof", "appEdit", "appUnstake", "appTransfer", "nodeEdit", "nodeUnjail", "send"}).Draw(rt, "txKind")
 				a := c13Action{kind: kind, node: rapid.IntRange(0, len(w.nodes)-1).Draw(rt, "node"), app: rapid.IntRange(0, 1).Draw(rt, "app"),
-					chain: rapid.SampledFrom([]string{"0001", "0021"}).Draw(rt, "chain")}
+					chain: rapid.SampledFrom(w.chains).Draw(rt, "chain")}
 				switch kind {
 				case "claim":
 					// a session that has ended (usually) or is still running (sometimes)
@@ -228,7 +240,7 @@ func c13Body(sigBlock, sigFinal string, kinds []string) func(rt *rapid.T, c *har
 				for i := 0; i < k; i++ {
 					kind := rapid.SampledFrom(kinds).Draw(rt, "trafficKind")
 					a := c13Action{kind: kind, node: rapid.IntRange(0, len(w.nodes)-1).Draw(rt, "tnode"), app: rapid.IntRange(0, 1).Draw(rt, "tapp"),
-						chain: rapid.SampledFrom([]string{"0001", "0021"}).Draw(rt, "tchain"), h: int64(rapid.IntRange(0, 6).Draw(rt, "back"))}
+						chain: rapid.SampledFrom(w.chains).Draw(rt, "tchain"), h: int64(rapid.IntRange(0, 6).Draw(rt, "back"))}
 					if kind == "dispatch" || kind == "abciDispatch" {
 						a.sbh = w.sessionStart(h-1) - int64(rapid.IntRange(0, 1).Draw(rt, "dsBack"))*w.bps
 						if a.sbh < 1 {
@@ -318,7 +330,7 @@ func c13Body(sigBlock, sigFinal string, kinds []string) func(rt *rapid.T, c *har
 					}
 					return chain.SignTx(w.spec.ChainID, rf.NewMsgProof(tree, idx), chain.DefaultFee, "", w.e(), w.nodes[cl.node])
 				case "appEdit":
-					msg := &appsTypes.MsgStake{PubKey: ak.PublicKey(), Chains: []string{"0001", "0021"}, Value: sdk.NewInt(a.amt)}
+					msg := &appsTypes.MsgStake{PubKey: ak.PublicKey(), Chains: append([]string{}, w.chains...), Value: sdk.NewInt(a.amt)}
 					return chain.SignTx(w.spec.ChainID, msg, chain.DefaultFee, "", w.e(), ak)
 				case "appUnstake":
 					return chain.SignTx(w.spec.ChainID, &appsTypes.MsgBeginUnstake{Address: chain.Addr(ak)}, chain.DefaultFee, "", w.e(), ak)
@@ -326,7 +338,7 @@ func c13Body(sigBlock, sigFinal string, kinds []string) func(rt *rapid.T, c *har
 					msg := &appsTypes.MsgStake{PubKey: w.fresh[a.node%2].PublicKey(), Chains: nil, Value: sdk.ZeroInt()}
 					return chain.SignTx(w.spec.ChainID, msg, chain.DefaultFee, "", w.e(), ak)
 				case "nodeEdit":
-					chains := []string{"0001", "0021"}[:a.amt]
+					chains := append([]string{}, w.chains...)[:a.amt]
 					st := w.spec.Nodes[a.node].Stake
 					msg := &nodesTypes.MsgStake{PublicKey: nk.PublicKey(), Chains: chains, Value: sdk.NewInt(st), ServiceUrl: "https://node.example:443", Output: chain.Addr(nk)}
 					return chain.SignTx(w.spec.ChainID, msg, chain.DefaultFee, "", w.e(), nk)
@@ -429,6 +441,9 @@ func c13Body(sigBlock, sigFinal string, kinds []string) func(rt *rapid.T, c *har
 		refT, refD, okc, okp := run(false)
 		if okc > 0 {
 			c.Label("claim-accepted")
+			if oneByte {
+				c.Label("claim-accepted-on-one-byte-chain-world")
+			}
 		}
 		if okp > 0 {
 			c.Label("proof-accepted")
